@@ -21,9 +21,14 @@ def judge_mc(ck, r):
     q = tlc.run("LlcpLife.tla", "MC_LlcpLife_strict.cfg", "C09", workers=4, timeout=300)
     if "NoStuck" not in q.violated:
         raise tlc.TLCError("vacuous: the DeadBind model does not exhibit the hang on a dead controller")
-    ck.cover(deadbind_model_violated=q.violated, prefix_model_violated=p.violated)
-    hit, _ = tlc.witnesses("LlcpLife.tla", "MC_LlcpLife.cfg", "C09", ["W_WaitAtTerm", "W_Notified", "W_Data"])
-    if len(hit) != 3:
+    # the model of the code before the fix "accept() could register a connection at an access point removed by
+    # terminate()" (DeadAdopt = TRUE) must violate NoOrphan
+    o = tlc.run("LlcpLife.tla", "MC_LlcpLife_orphan.cfg", "C09", workers=4, timeout=300)
+    if "NoOrphan" not in o.violated:
+        raise tlc.TLCError("vacuous: the DeadAdopt model does not exhibit the orphaned connection")
+    ck.cover(deadbind_model_violated=q.violated, prefix_model_violated=p.violated, deadadopt_model_violated=o.violated)
+    hit, _ = tlc.witnesses("LlcpLife.tla", "MC_LlcpLife.cfg", "C09", ["W_WaitAtTerm", "W_Notified", "W_Data", "W_AdoptTerm", "W_Closed"])
+    if len(hit) != 5:
         raise tlc.TLCError("vacuous: witnesses reached only %s" % sorted(hit))
     ck.cover(witnesses_reached=sorted(hit))
 
